@@ -57,7 +57,7 @@ func pickUnlisted(r *Rng, reg BReg) string {
 
 // the first two differ in the registry host only (seed C17-c: tables keyed without the host)
 var bRegPool = []string{"example.com/ns/m0/aws", "other.example.org/ns/m0/aws", "ns/m1/aws", "example.com/ns/m2/azurerm"}
-var bVerPool = []string{"1.0.0", "1.1.0", "1.2.3", "2.0.0", "2.1.0-beta1", "0.9.0", "1.10.0"}
+var bVerPool = []string{"1.0.0", "1.1.0", "1.2.3", "2.0.0", "2.1.0-beta1", "0.9.0", "1.10.0", "1.2.3+linux", "1.2.3+darwin", "2.0.0+build.5"}
 var bSubPool = []string{"", "m", "m/n", "k", "a/b"}
 var bRelPool = []string{"./k", "../", "../k", "./m/n", "../../x", "../../..", "./", "../m", "./a/b"}
 var bAllowedPool = []string{"all", "released", "only:1.1.0", "atleast:1.1.0", "olderthan:2.0.0", "range:1.0.0:2.0.0", "sel:1.0.0+2.0.0", "only:9.9.9", "atleast:3.0.0", "only:2.1.0-beta1"}
@@ -271,7 +271,10 @@ func refSelect(w *BWorld, reg, dsl string) (string, bool, bool) {
 			if !set.Has(pv) {
 				continue
 			}
-			if best == "" || versions.MustParseVersion(best).LessThan(pv) {
+			// among versions of the same precedence (differing in build metadata only) go-versions'
+			// NewestInSet over the stably sorted listing keeps the last listed one (the library calls the
+			// choice arbitrary; the reference follows the library, as the model's selectVersion does)
+			if best == "" || !pv.LessThan(versions.MustParseVersion(best)) {
 				best = v.Ver
 			}
 		}
